@@ -56,6 +56,18 @@ CHECKS = {
  'C18': ('exploration', 'independent rule oracle (accepted => rules, built violations => rejected) + crash-isolated application with per-call watchdog + section-unchanged effect monitor',
          'Every structural rule violated singly and pairwise in add-*/replace patches, action enablement matrix, all six RFC 6902 operations x 41 pointer shapes for path and from x value variants (exhaustive for single operations), aliasing chains and random lists, random mutations of valid patches; accepted deltas are applied to three documents: never panic / crash / hang, and JSON patches leave the key and service sections unchanged.',
          'Key-type/purpose table and the limits 50/30 frozen from statement and pinned tree; URI validity = net/url.ParseRequestURI; watchdog 30 s per call.', 'DESIGN.md 5/C18'),
+ 'C15': ('fault_enumeration', 'store-state oracle over recorded Put calls with one injected fault enumerated over every position; real Observer goroutine under the race detector; intake no-trace monitor',
+         'Sequences of valid, malformed, unreadable and duplicate-carrying transactions delivered to the real Observer; one CAS read failure or store failure per run, enumerated over every file of every transaction and every Put; the recorded store writes must be exactly one stamped, duplicate-free Put per processable transaction. DocumentHandler.ProcessOperation sequences with an unpublished-store or writer failure at every call index must leave exactly the accepted operations in queue and unpublished store.',
+         'Duplicate-carrying transactions come from a stub provider (the real provider refuses them); quick tier samples 8 fault positions per sequence, thorough enumerates all.', 'DESIGN.md 5/C15, A.3'),
+ 'C16': ('fault_enumeration', 'deterministic scheduler over the verif step hook + write-fault enumeration + offline event-log checker E1-E6; concurrent stress under the Go race detector with porcupine linearizability check of the queue boundary',
+         'Mode A: the harness, not tickers, chooses ticks, the yield point (nine per batch) at which each concurrent Add lands and which CAS / anchor write fails; an exhaustive 3-operation family and tens of thousands to millions of PRNG schedules, each log checked for exactly-once anchoring, FIFO/nack-to-head, batch size, version purity, undersized-batch rule, re-queue of deferred operations and bounded drain; a slice uses the real OperationHandler. Mode B: real Start() with millisecond tickers and 2-8 adders under -race; porcupine checks the recorded queue history against a sequential queue model.',
+         'Crash points are failed CAS/anchor writes (a process crash after a successful anchor is at-least-once by construction and outside the statement); Mode B quiescence uses a generous wall-clock watchdog whose firing is inconclusive.', 'DESIGN.md 5/C16, A.2, D.4'),
+ 'C19': ('exploration', 'independent projection monitor with retained-result re-check (aliasing across transformations) and a slice through DocumentHandler.ResolveDocument',
+         'Generated internal documents over every key type x purpose subset, material encodings, services, aliases; random resolution models and transformer options; each transformer instance serves many documents sequentially and from goroutines and every result is re-verified after all later calls.',
+         'Context membership, not order; key-type/context table frozen from the pinned tree.', 'DESIGN.md 5/C19'),
+ 'C20': ('exploration', 'full-pipeline runtime monitor: real components end to end vs reference state machine + independent projection at every quiescent point; race detector',
+         'Client operations on several DIDs through DocumentHandler/REST -> Writer -> OperationHandler -> CAS -> ledger -> Observer -> TxnProcessor -> store -> Resolve -> transformer, with harness-chosen flush and observation points, two protocol versions with ledger time crossing the boundary, with and without unpublished store; every DID compared with the model after every observation; create response / long form / short form content equality; bounded drain; a concurrent slice judged at quiescence.',
+         'Runs with an unpublished store use operations without windows; ledger and stores are harness implementations of the caller-provided interfaces.', 'DESIGN.md 5/C20'),
 }
 
 RACE = {'C15', 'C16', 'C20'}
